@@ -290,6 +290,7 @@ class Server(object):
         self.uploads = []     # (jid, node) every key upload as received
         self.upload_policy = "result"   # result | error | drop  (what the next upload gets as answer)
         self.label_next_as_broadcast = False   # deliver the next one-to-one message as <message from="status@broadcast" participant=sender>
+        self.key_fetch_policy = []       # answers to the next key-bundle requests: "result" (default once exhausted) | "error" | "drop"
         self.withhold_success = set()    # jids whose next connection gets no <success> (the connection drops before the login completes)
         self.seq = 0
 
@@ -332,6 +333,13 @@ class Server(object):
             self.store_keys(jid, node)
             self.q(jid, N("iq", {"type": "result", "from": "s.whatsapp.net", "id": node["id"]}))
         elif node.tag == "iq" and node["xmlns"] == "encrypt" and node["type"] == "get":
+            policy = self.key_fetch_policy.pop(0) if self.key_fetch_policy else "result"
+            if policy == "drop":
+                return
+            if policy == "error":
+                self.q(jid, N("iq", {"type": "error", "from": "s.whatsapp.net", "id": node["id"]},
+                              [N("error", {"code": "500", "text": "internal-server-error"})]))
+                return
             users = []
             for u in node.getChild("key").getAllChildren():
                 k = self.keys.get(u["jid"])
